@@ -157,7 +157,7 @@ def report(ctx, obs, quick, rnd):
              "not_promoted": sum(1 for r in recs if not r["promoted"]), "unsupported_reasons": {},
              "family_promotions": 0, "corpus_promotions": 0}
     prom = [r for r in recs if r["promoted"]]
-    cap = 60 if quick else 100000
+    cap = 60 if quick else 800
     if len(prom) > cap:
         fam = [r for r in prom if r["origin"].startswith("family:")]
         rest = sorted([r for r in prom if not r["origin"].startswith("family:")], key=lambda r: -r["ninsts"])
@@ -167,7 +167,7 @@ def report(ctx, obs, quick, rnd):
     found = False
     if prom and (COQ / "C14I" / "M2V.vo").exists():
         try:
-            res = evaluate([m2v_expr(r) for r in prom], "c14i_m2v", shard=max(4, len(prom) // 6 + 1), timeout=900)
+            res = evaluate([m2v_expr(r) for r in prom], "c14i_m2v", shard=min(40, max(4, len(prom) // 6 + 1)), timeout=1200)
         except RuntimeError as e:
             res = []
             ctx.violation("correspondence-broken", "the mem2var validator could not be evaluated on the exported promotions", {"error": str(e)[-1500:]})
